@@ -123,7 +123,9 @@ class BaseJob(ABC, Generic[T]):
             for timer in self.__timers:
                 if (timer.datetime - ref_dt).total_seconds() <= 0:
                     timer.calc_next_exec(ref_dt)
-        else:
+        elif self.__delay or self.__attempts != 1:
+            # with delay=False the first run consumed `start` itself; the timers
+            # already point to the first regular occurrence and must not skip it
             self.__pending_timer.calc_next_exec(ref_dt)
         self.__pending_timer = get_pending_timer(self.__timers)
         if self.__stop is not None and self.__pending_timer.datetime > self.__stop:
